@@ -166,7 +166,7 @@ func stage(b *c18Builder, name string, args ...Expr) AppStage {
 func hx(s string) Expr { return sl(hex.EncodeToString([]byte(s))) }
 
 func checkC18(c *Check) {
-	c.Rule = "probe programs installed in the sandbox record argc/argv (hex) per invocation, act as tagged filters and produce requested output/status; cells: argument value (C08 payloads, every printable character, blanks, empty) x position (sole, first, last, middle) x form (literal, variable, run-time value, concatenation, call result), glob patterns with matching files present in the working directory, empty strings at every position of 0-5 arguments, program named by identifier or by string literal, pipelines of 1-3 stages with tagged filters, capture of outputs with 0-3 trailing newlines and inner blank lines, statuses {0,1,2,7,126,127,255} on last and non-last stages, statement versus capture form, inside functions; oracle = model of the probes (expected argv logs as files, expected stdout and captured value/status) plus the sandbox snapshot (a redirect from data shows as a stray file). Non-trivial = at least one command executed; distinct = SHA-256 of source + files"
+	c.Rule = "probe programs installed in the sandbox record argc/argv (hex) per invocation, act as tagged filters and produce requested output/status; cells: argument value (C08 payloads, every printable character, blanks, empty) x position (sole, first, last, middle) x form (literal, variable, run-time value, concatenation, call result), glob patterns with matching files present in the working directory, empty strings at every position of 0-5 arguments, program named by identifier or by string literal, pipelines of 1-3 stages with tagged filters, capture of outputs with 0-3 trailing newlines, inner blank lines and white space at the end that is not the trailing newline, computed arguments with an effect in every stage (evaluation order over the chain), statuses {0,1,2,7,126,127,255} on last and non-last stages, statement versus capture form, inside functions; oracle = model of the probes (expected argv logs as files, expected stdout and captured value/status) plus the sandbox snapshot (a redirect from data shows as a stray file). Non-trivial = at least one command executed; distinct = SHA-256 of source + files"
 	c.Assumptions = []string{"literal spellings of \" $ ` \\ avoided (C08 finding); such values arrive at run time", "exit status of a pipeline = status of its last command"}
 	runProbes(c, bashProbeJudge)
 	nontrivial := func(r Result) bool { return r.Features["appcall"]+r.Features["appcallstmt"] > 0 }
@@ -300,7 +300,9 @@ func checkC18(c *Check) {
 		add(bc)
 	}
 	// pipelines, capture, statuses, trailing newlines
-	outputs := map[string]string{"none": "", "no-newline": "abc", "one-newline": "abc\n", "two-lines": "l1\nl2\n", "three-newlines": "abc\n\n\n", "inner-blank-lines": "a\n\nb\n", "blanks": "  a  b  \n", "only-newline": "\n", "glob": "*\n", "dash-n": "-n\n"}
+	outputs := map[string]string{"none": "", "no-newline": "abc", "one-newline": "abc\n", "two-lines": "l1\nl2\n", "three-newlines": "abc\n\n\n", "inner-blank-lines": "a\n\nb\n", "blanks": "  a  b  \n", "only-newline": "\n", "glob": "*\n", "dash-n": "-n\n",
+		// white space at the end that is not the one trailing newline
+		"trailing-blank": "a b c ", "trailing-tab": "abc\t", "only-blank": " ", "only-tab": "\t", "blank-then-newline": "abc \n", "tab-then-newline": "abc\t\n", "trailing-cr": "abc\r", "cr-lf": "abc\r\n", "trailing-blanks-two-lines": "l1 \nl2  ", "trailing-vt-ff": "abc\v\f"}
 	statuses := []int{0, 1, 2, 7, 126, 127, 255}
 	onames := sortedKeys(func() map[string]string {
 		m := map[string]string{}
@@ -339,6 +341,34 @@ func checkC18(c *Check) {
 							add(b.finish(key, append(body, pr(sl("done")))...))
 						}
 					}
+				}
+			}
+		}
+	}
+	// computed arguments whose evaluation has an effect: a counter function in the argument lists of every
+	// stage (values are handed out left to right over the whole chain)
+	for plen := 1; plen <= 3; plen++ {
+		for _, capture := range []bool{false, true} {
+			for _, inFunc := range []bool{false, true} {
+				b := newC18()
+				next := fn("next", nil, []Type{TString}, IncDec{"cnt", true}, ret(bin("+", sl("v"), Itoa{vr("cnt")})))
+				names := []string{"p_rec", "p_rec2", "p_rec3"}
+				stages := []AppStage{}
+				for k := 0; k < plen; k++ {
+					stages = append(stages, stage(b, names[k], call("next"), sl("lit"), call("next")))
+				}
+				var body []Stmt
+				if capture {
+					body = []Stmt{VarDecl{Names: []string{"o", "e", "code"}, Short: true, Values: []Expr{AppCall{stages}}}, pr(framed(vr("o")), vr("code"), vr("cnt"))}
+				} else {
+					body = []Stmt{ExprStmt{AppCall{stages}}, pr(sl("after"), vr("cnt"))}
+				}
+				key := fmt.Sprintf("arg-evaluation-order/len=%d/capture=%v/func=%v", plen, capture, inFunc)
+				pre := []Stmt{def("cnt", il(0)), next}
+				if inFunc {
+					add(b.finish(key, append(pre, fn("run", nil, nil, body...), callS("run"), callS("run"), pr(sl("done")))...))
+				} else {
+					add(b.finish(key, append(append(pre, body...), pr(sl("done")))...))
 				}
 			}
 		}
